@@ -64,7 +64,11 @@ def check(run):
         stats['noise_free' if chi_star == 0 else 'noisy_stationary'] += 1
         cc = {k: v for k, v in c.items() if k not in ('gradOnly', 'conv', 'noisy')}
         for tol in ((1e-10, 1e-6, 1e-3) if thorough else (1e-10, 1e-3)):
-            g = GC.build_graph(cc)
+            # Units dimension: every third run has ALL information matrices scaled by 2^-20 (weak weights / other units: chi^2 << 1 although the
+            # state is far from the optimum).  Stationary points, the Gauss-Newton iterates and the RELATIVE stopping rule do not depend on it.
+            sc = 2.0 ** -20 if stats['runs'] % 3 == 1 else 1.0
+            g = GC.build_graph(cc, info_scale=sc)
+            stats['runs_with_weak_information'] = stats.get('runs_with_weak_information', 0) + (sc != 1.0)
             if stats['runs'] % 4 == 1 and len(g._vertices) >= 3:
                 # History dimension: the caller re-orders the tail of the vertex list it handed over (the Graph keeps that very list); the
                 # position of a vertex's unknowns in the normal equations was fixed at construction and must not be re-derived from list positions
@@ -135,7 +139,7 @@ def check(run):
             scale = 1.0 + max(abs(x) for v in cc['verts'] for x in v['t'])
             # (an inherited numerical Jacobian restores the perturbed pose through copy(), which re-wraps an SE(2) heading: poses may move by an
             #  ulp WHILE the report's chi^2 is being accumulated; the allowance below is the effect of a 1e-14*scale change of the errors)
-            wmax = max(sum(abs(x) for x in row) for e in cc['edges'] for row in e['W'])
+            wmax = max(sum(abs(x) for x in row) for e in cc['edges'] for row in e['W']) * sc
             de = 1e-14 * scale
             slack = lambda x: 1e-12 * x + 2.0 * (x * wmax) ** 0.5 * de + wmax * de * de      # noqa
             if not (ret.initial_chi2 == before or abs(ret.initial_chi2 - before) <= slack(before)) or not (ret.final_chi2 == after or abs(ret.final_chi2 - after) <= slack(after)):
@@ -144,14 +148,15 @@ def check(run):
             if not (ret.final_chi2 <= ret.initial_chi2 * (1 + 1e-12)):
                 run.violation(dict(key, outcome='chi2-increased'), 'final chi2 %r exceeds initial chi2 %r (start inside the calibrated neighbourhood)' % (ret.final_chi2, ret.initial_chi2), dict(case=cc))
                 continue
-            floor = 1e-9 * (1 + chi_star) + 1e-12
-            if ret.final_chi2 < chi_star - floor:
+            cs = chi_star * sc
+            floor = (1e-9 * (1 + chi_star) + 1e-12) * sc
+            if ret.final_chi2 < cs - floor:
                 stats['unjudged_other_minimum'] += 1
                 continue
-            gap = ret.final_chi2 - chi_star
-            if gap > 10 * tol * ret.final_chi2 + 1e-12 * (1 + chi_star) * scale ** 2:
-                run.violation(dict(key, outcome='not-stationary'), 'ended at chi2 %r, the stationary point certified by the specification has chi2 %r (gap %.3g, tol %g, %d iterations, converged=%s)' % (
-                    ret.final_chi2, chi_star, gap, tol, ret.num_iterations, ret.converged), dict(case=cc, tol=tol))
+            gap = ret.final_chi2 - cs
+            if gap > 10 * tol * ret.final_chi2 + 1e-12 * (1 + chi_star) * scale ** 2 * sc:
+                run.violation(dict(key, outcome='not-stationary'), 'ended at chi2 %r, the stationary point certified by the specification has chi2 %r (gap %.3g, tol %g, %d iterations, converged=%s, information x %g)' % (
+                    ret.final_chi2, cs, gap, tol, ret.num_iterations, ret.converged, sc), dict(case=cc, tol=tol, info_scale=sc))
                 continue
             if chi_star == 0:
                 worst = 0.0
